@@ -47,13 +47,13 @@ CHECKS = {
    design="6/C06", note=NOTE),
  "C13": dict(
    cat="proof",
-   text="Theorems (Props/C13.v, closed): over ALL file-system states (every damaged, truncated, emptied, garbage, deleted or half-written archive is one) and all fault schedules, the PAR2 Verify AND Repair models never panic (incl. the coder path: operands of the row reduction are well-dimensioned for every shard table, reassembly never slices out of range); 'no repair needed' implies all protected files match the recorded length and hashes; Repair changes only protected paths and only by completed writes of data matching both recorded hashes; PAR1 Verify is pure and PAR1 Repair writes only verified data. NOT proved: no-panic of the PAR1 model (rests on the enumerated PAR1 grid). "
+   text="Theorems (Props/C13.v, closed): over ALL file-system states (every damaged, truncated, emptied, garbage, deleted or half-written archive is one) and all fault schedules, the PAR2 Verify AND Repair models never panic (incl. the coder path: operands of the row reduction are well-dimensioned for every shard table, reassembly never slices out of range); 'no repair needed' implies all protected files match the recorded length and hashes; Repair changes only protected paths and only by completed writes of data matching both recorded hashes; the PAR1 Verify and Repair models never panic either; PAR1 Verify is pure and PAR1 Repair writes only verified data. "
         "Tied to the code by an ENUMERATED grid (~9500 cases per run): truncation at every packet boundary, every byte of every packet header (every byte of the index) and sampled payload offsets; every bit of magic/length and two bits per byte of the other header fields of the first packet of each type; emptied/garbage/appended/deleted files, every subset of deleted archive files, every prefix of Create's write sequence with the last file torn at and inside packet boundaries; data intact or one file missing; Verify+Repair under an address-space limit with allocation measured; predicates: no crash, usable <= present, clean => intact, only originals written; impl = model. Four crashes of the pinned tree found this way were fixed in /repo.",
    technique="Rocq proof: no-panic and truthfulness theorems quantified over all file-system states; enumerated truncation/bit-flip/interrupted-write grid as correspondence check",
    design="6/C13", note=NOTE),
  "C19": dict(
    cat="proof",
-   text="Theorems (Props/C19.v, closed): for every archive state the PAR2 Verify model never panics and Repair never writes data that fails the archive's own file hashes, length included (C02's theorem). PAR2 Repair never panics for any archive, state and schedule. The allocation bound is measured, not proved; no-panic of the PAR1 model rests on the PAR1 grid. "
+   text="Theorems (Props/C19.v, closed): for every archive state the PAR2 Verify model never panics and Repair never writes data that fails the archive's own file hashes, length included (C02's theorem). PAR2 Repair never panics for any archive, state and schedule. PAR1 Verify and Repair never panic either. The allocation bound is measured, not proved. "
         "Tied to the code by an ENUMERATED re-checksummed grid (~580 cases): an independent writer emits sets whose declared fields are overridden BEFORE ids, set id and packet hashes are computed - slice size and recovery count at boundary values up to 2^64-1 (with and without consistent checksum lists), unsorted/duplicate/unknown ids, truncated main body, file lengths at boundaries and slice multiples, wrong hashes, hostile names, checksum lists too short/long, exponents 0..65536/2^31/2^32-1, wrong block sizes, duplicate/wrong recovery data, recovery packet in the index, removal/duplication of every packet type (thorough: pairs) x four data states; no crash, bounded allocation (bytes allocated measured per case), nothing but protected content written; impl = model. Five crashes of the pinned tree were fixed; the coder sized by the highest exponent is a recorded known finding.",
    technique="Rocq proof: hash-guarded writes for all states; enumerated re-checksummed field-boundary grid with allocation measurement as correspondence check",
    design="6/C19", note=NOTE + "Exponents above 4000 and accepted slice sizes above 64 KiB run on the implementation only (the extracted model's list-based tables make them too slow)."),
@@ -77,7 +77,7 @@ CHECKS = {
    design="6/C14", note=NOTE),
  "C15": dict(
    cat="proof",
-   text="Theorems (Props/C15.v, closed): for the model of Go's path.Clean/IsAbs and filepath.Join/Dir as gopar calls them, EVERY name accepted by checkFilename - any spelling - cleans to a non-empty list of ordinary components (no '..', no '.', no empty component), and joined below ANY directory (rooted or not, itself containing '..' or not) leaves the directory's components untouched: the path read or written is strictly inside the index file's directory tree; rejected spellings shown. PAR1's guard (Base(name) = name) and Create's containment check are covered by the correspondence check. "
+   text="Theorems (Props/C15.v, closed): for the model of Go's path.Clean/IsAbs and filepath.Join/Dir as gopar calls them, EVERY name accepted by checkFilename - any spelling - cleans to a non-empty list of ordinary components (no '..', no '.', no empty component), and joined below ANY directory (rooted or not, itself containing '..' or not) leaves the directory's components untouched: the path read or written is strictly inside the index file's directory tree; rejected spellings shown; PAR1: every write event of Repair, for any archive and any faults, targets Join(Dir(index), n) with n its own base name, and except for the degenerate names '.', '/', '..' (whose read fails before any write) the path is the directory's components plus exactly one ordinary component. Create's containment check is covered by the correspondence check. "
         "Tied to the code: the path model vs Go's functions and gopar's checkFilename on EVERY string over {a . /} up to length 7 (21 000 cases) plus unicode/NUL/backslash; fully repairable PAR2 and PAR1 archives by independent writers whose declared names come from a 28-spelling traversal corpus at every position, declared files missing, on a real directory seven levels deep with canaries at every level: nothing outside is created or modified; Create refuses outside inputs.",
    technique="Rocq proof: stack-machine characterisation of Clean + no-underflow lemma for accepted names; exhaustive small-alphabet path correspondence + canary-tree end-to-end check",
    design="6/C15", note=NOTE + "Lexical only, as the code is: symlinks and case-insensitive file systems are not modelled."),
@@ -89,7 +89,7 @@ CHECKS = {
    design="6/C17", note=NOTE),
  "C18": dict(
    cat="proof",
-   text="Theorems (Props/C18.v, closed): on the model with a fault schedule indexed by I/O call number: an operation (Create, Verify, Repair) that returns success was hit by no scheduled fault (a missing file is a read result, not a fault); whatever the faults, a run changes only paths it issued write calls for; a path is listed as repaired only if its write completed; Verify leaves the state unchanged under any faults, so its rerun is the fault-free run. The rerun clause for Repair is not a theorem: it fails for in-place rewriting (recorded known finding) and is decided by the check. "
+   text="Theorems (Props/C18.v, closed): on the model with a fault schedule indexed by I/O call number: an operation (Create, Verify, Repair) that returns success was hit by no scheduled fault (a missing file is a read result, not a fault); whatever the faults, a run changes only paths it issued write calls for; a path is listed as repaired only if its write completed; Verify leaves the state unchanged under any faults, so its rerun is the fault-free run; the same reporting and footprint theorems for PAR1. The rerun clause for Repair is not a theorem: it fails for in-place rewriting (recorded known finding) and is decided by the check. "
         "Tied to the code by FAULT ENUMERATION: for PAR2 and PAR1, Create/Verify/Repair on six archive states: the fault-free I/O trace is recorded, then a fault is injected at EVERY call index (every read, the listing, every write): error without effect, and for writes also after 0/1/7 bytes or all data; then cleared and rerun (~1100 faulted runs + reruns per run; thorough: pairs); error reported, nothing else altered, repaired list = completed writes, rerun = fault-free result; impl = model on every faulted run and rerun.",
    technique="Rocq proof: fault-propagation and write-footprint invariants over the I/O-trace model; exhaustive single-fault injection at every I/O call index as correspondence check",
    design="6/C18", note=NOTE + "OS write atomicity is modelled as the two fault kinds the property names (no effect / torn prefix)."),
